@@ -339,14 +339,13 @@ def run_c07(case, fail):
         per = {}
         for s, an in pairs:
             per[s] = per.get(s, 0) + 1
-        av = {s: sum(1 for p in avail if p[0] == s) for s in per}
-        # the requested number may only be exceeded when the chosen samples cannot take the batch otherwise
-        could_fit = sum(min(naps, av[s]) for s in per) >= len(pairs)
-        # rows without (enough) available annotators belong to the known all-False-row findings: judge clean situations only
-        rows = {p[0] for p in avail}
-        n_rows_offered = ncand_rows if mode in (0, 1, 4) else len(rows)
-        if len(rows) < n_rows_offered or any(sum(1 for p in avail if p[0] == r) < naps for r in rows):
-            could_fit = False
+        # quota rule: as long as the candidate rows can take the whole batch with at most `naps` annotators each, no sample
+        # may receive more than `naps`. Rows without any available annotator belong to the known non-termination / quota
+        # findings (KF-C07-n-to-assign-annotators-loop) and are not judged here.
+        rows = sorted({p[0] for p in avail})
+        n_rows_offered = ncand_rows if mode in (0, 1, 4) else len(set(np.asarray(cand).tolist()))
+        av_all = {r: sum(1 for p in avail if p[0] == r) for r in rows}
+        could_fit = len(rows) == n_rows_offered and sum(min(naps, v) for v in av_all.values()) >= len(pairs)
         for s, c in per.items():
             if c > max(naps, 1) and could_fit:
                 fail("C07.too_many_annotators_for_a_sample", f"sample {s} received {c} annotators, requested {naps} per sample ({pairs})")
